@@ -1,7 +1,7 @@
-"""Regenerates lean/CppUModel/Gen/FailableConstants.lean from src/CppUTest/TestHarness_c.cpp and checks that
-the loop-free functions the C15 model was written from still have the shape that was modelled
-(`shouldFail`, `countdown`, `cpputest_malloc_set_out_of_memory_countdown`, `strdup_alloc`, the head of
-`cpputest_calloc_location`, `clearFailedAllocs`, `checkAllFailedAllocsWereDone`)."""
+"""Regenerates lean/CppUModel/Gen/FailableConstants.lean (the two enum constants of the malloc countdown) from
+src/CppUTest/TestHarness_c.cpp.  The function BODIES the C15 model was written from are translated by
+translate/extract_failable_code.py (Gen/FailableCode.lean); the textual shape checks that used to live here
+are gone, so a semantically neutral rewrite of those bodies is no longer reported."""
 import os, re
 from .common import *
 
@@ -13,60 +13,9 @@ def norm(s):
     return re.sub(r"\s+", "", s)
 
 
-SHAPES_A = [
-    (r"bool\s+shouldFail\s*\(\s*int\s+allocationNumber\s*,\s*const\s+char\s*\*\s*file\s*,\s*size_t\s+line\s*\)\s*\{",
-     "if(file_){if(SimpleString::StrCmp(file,file_)==0&&line==line_){actualAllocNumber_++;"
-     "returnactualAllocNumber_==allocNumberToFail_;}returnfalse;}returnallocationNumber==allocNumberToFail_;",
-     "LocationToFailAllocNode::shouldFail"),
-    (r"void\s+FailableMemoryAllocator::clearFailedAllocs\s*\(\s*\)\s*\{",
-     "LocationToFailAllocNode*current=head_;while(current){head_=current->next_;"
-     "free_memory((char*)current,0,__FILE__,__LINE__);current=head_;}currentAllocNumber_=0;",
-     "FailableMemoryAllocator::clearFailedAllocs"),
-    (r"void\s+init\s*\(\s*LocationToFailAllocNode\s*\*\s*next\s*=\s*NULLPTR\s*\)\s*\{",
-     "allocNumberToFail_=0;actualAllocNumber_=0;file_=NULLPTR;line_=0;next_=next;",
-     "LocationToFailAllocNode::init"),
-]
-
-SHAPES_C = [
-    (r"static\s+void\s+countdown\s*\(\s*\)\s*\{",
-     "if(malloc_out_of_memory_counter<=NO_COUNTDOWN)return;if(malloc_out_of_memory_counter==OUT_OF_MEMORRY)return;"
-     "malloc_out_of_memory_counter--;if(malloc_out_of_memory_counter==OUT_OF_MEMORRY)cpputest_malloc_set_out_of_memory();",
-     "countdown"),
-    (r"void\s+cpputest_malloc_set_out_of_memory_countdown\s*\(\s*int\s+count\s*\)\s*\{",
-     "malloc_out_of_memory_counter=count;if(malloc_out_of_memory_counter==OUT_OF_MEMORRY)cpputest_malloc_set_out_of_memory();",
-     "cpputest_malloc_set_out_of_memory_countdown"),
-    (r"void\s+cpputest_malloc_set_out_of_memory\s*\(\s*\)\s*\{",
-     "if(originalAllocator==NULLPTR)originalAllocator=getCurrentMallocAllocator();"
-     "setCurrentMallocAllocator(NullUnknownAllocator::defaultAllocator());",
-     "cpputest_malloc_set_out_of_memory"),
-    (r"void\s+cpputest_malloc_set_not_out_of_memory\s*\(\s*\)\s*\{",
-     "malloc_out_of_memory_counter=NO_COUNTDOWN;setCurrentMallocAllocator(originalAllocator);originalAllocator=NULLPTR;",
-     "cpputest_malloc_set_not_out_of_memory"),
-    (r"void\s*\*\s*cpputest_malloc_location\s*\(\s*size_t\s+size\s*,\s*const\s+char\s*\*\s*file\s*,\s*size_t\s+line\s*\)\s*\{",
-     "countdown();malloc_count++;returncpputest_malloc_location_with_leak_detection(size,file,line);",
-     "cpputest_malloc_location"),
-    (r"static\s+char\s*\*\s*strdup_alloc\s*\([^)]*\)\s*\{",
-     "char*result=(char*)cpputest_malloc_location(size,file,line);if(result==NULLPTR)returnNULLPTR;"
-     "PlatformSpecificMemCpy(result,str,size);result[size-1]='\\0';returnresult;",
-     "strdup_alloc"),
-    (r"void\s*\*\s*cpputest_calloc_location\s*\([^)]*\)\s*\{",
-     "if(size!=0&&num>((size_t)-1)/size)returnNULLPTR;void*mem=cpputest_malloc_location(num*size,file,line);"
-     "if(mem)PlatformSpecificMemset(mem,0,num*size);returnmem;",
-     "cpputest_calloc_location"),
-]
-
-
 def extract():
     a = strip_comments(read(SRC_A))
     c = strip_comments(read(SRC_C))
-    for sig, want, name in SHAPES_A:
-        got = norm(function_body(a, sig))
-        if got != want:
-            raise TranslateError("%s changed shape: %s" % (name, got))
-    for sig, want, name in SHAPES_C:
-        got = norm(function_body(c, sig))
-        if got != want:
-            raise TranslateError("%s changed shape: %s" % (name, got))
     m = re.search(r"enum\s*\{\s*NO_COUNTDOWN\s*=\s*(-?\d+)\s*,\s*OUT_OF_MEMORRY\s*=\s*(-?\d+)\s*\}", c)
     if not m:
         raise TranslateError("enum { NO_COUNTDOWN, OUT_OF_MEMORRY } not found")
